@@ -12,7 +12,7 @@ use serde_json::Value as Json;
 use std::cell::RefCell;
 
 thread_local! {
-    static ARENA: RefCell<GuardArena> = RefCell::new(GuardArena::new(1 << 16));
+    static ARENA: RefCell<GuardArena> = RefCell::new(GuardArena::new(1 << 18));
 }
 
 pub fn target_shapes() -> Vec<Shape> {
@@ -276,7 +276,12 @@ pub fn run(ctx: &Ctx) {
             // make the payload a plausible message for length-prefixed shapes: prefix with its varint length
             let mut msg = crate::refcodec::ref_encode(&Shape::U64, &crate::dynshape::Value::U(payload.len() as u128)).unwrap().bytes;
             msg.extend_from_slice(&payload);
-            for m in [&payload, &msg] {
+            // the same message cut short by 1..3 bytes inside an intact frame
+            let cut_by = 1 + payload.len() % 3;
+            let short = msg[..msg.len().saturating_sub(cut_by)].to_vec();
+            // and with every filler byte 0xFF / 0x01 instead (other length prefixes in the raw payload)
+            let alt: Vec<u8> = payload.iter().map(|&b| if b == 0x51 { if run % 2 == 0 { 0xFF } else { 0x01 } } else { b }).collect();
+            for m in [&payload, &msg, &short, &alt] {
                 let f = refcobs::frame(m);
                 check(shape, &f, true, l)?;
                 // no sentinel
@@ -301,6 +306,35 @@ pub fn run(ctx: &Ctx) {
             Ok(())
         },
     );
+    // very long frames: more than 254 full blocks (the difference between consumed and produced bytes exceeds a byte)
+    {
+        let lens: Vec<usize> = vec![64_515, 64_516, 64_517, 64_770, 65_024, 65_535, 65_536, 70_000, 130_000];
+        let total = (lens.len() * 3 * 3) as u64;
+        let lens = &lens;
+        ctx.par_range("very-long-frames", total, move |i, l| {
+            let i = i as usize;
+            let n = lens[i % lens.len()];
+            let zeros = (i / lens.len()) % 3; // 0, 1, 40 zero bytes inside
+            let tail_kind = i / (lens.len() * 3);
+            let mut payload: Vec<u8> = (0..n).map(|k| 1 + (k % 255) as u8).collect();
+            for z in 0..[0usize, 1, 40][zeros] {
+                let pos = (z * 7919 + 1000) % n;
+                payload[pos] = 0;
+            }
+            let mut msg = crate::refcodec::ref_encode(&Shape::U64, &crate::dynshape::Value::U(payload.len() as u128)).unwrap().bytes;
+            msg.extend_from_slice(&payload);
+            let mut f = refcobs::frame(&msg);
+            match tail_kind {
+                0 => {}
+                1 => f.extend_from_slice(&[3, 1, 2, 0, 9]),
+                _ => {
+                    f.pop();
+                }
+            }
+            l.class("very-long-frame");
+            check(&Shape::ByteBuf, &f, i % 2 == 0, l)
+        });
+    }
     let n = ctx.tier.pick(1_500_000, 20_000_000);
     ctx.par_proptest(
         "random-bytes",
